@@ -44,8 +44,8 @@ inductive Tok where | app (len : Nat) (grouped : Bool) | zero
 def parseTok (w : String) : Option Tok :=
   if w == "z" then some .zero
   else if w.startsWith "g" then
-    match (w.drop 1).toString.toNat? with | some n => if n ≤ 20000 then some (.app n true) else none | none => none
-  else match w.toNat? with | some n => if n ≤ 20000 then some (.app n false) else none | none => none
+    match (w.drop 1).toString.toNat? with | some n => if n ≤ 200000 then some (.app n true) else none | none => none
+  else match w.toNat? with | some n => if n ≤ 200000 then some (.app n false) else none | none => none
 
 structure Live where
   cfg : Cfg
@@ -54,6 +54,10 @@ structure Live where
   declared : Array (Option (List Tok)) := Array.replicate 8 none   -- producers declared for the next `run`
   nrec : Nat := 0
   echo : Option Nat := none     -- `echo` script active: payload length of the sink's nested appends (pseudo-producer 8)
+  anyApp : Bool := false        -- something was appended in this lifecycle
+  nocb : Bool := false          -- `unsetcb`: no sink callback installed — blocks are recycled without being handed to anyone
+  compact : Bool := false       -- `compact` lifecycle: one append at a time, the harness compares the stream itself
+  bigs : List (Nat × Nat × Nat) := []   -- compact: (tid, seq, payload length), newest first
 
 structure TAcc where
   live : Option Live := none
@@ -103,14 +107,101 @@ def splitBlocks (stream : List UInt8) : List Nat → List (List UInt8)
 
 def prefixSums (l : List Nat) : List Nat := (l.foldl (fun (acc : List Nat × Nat) n => ((acc.2 + n) :: acc.1, acc.2 + n)) ([], 0)).1
 
-/-- the `cleanup` of a live pipe: consume `P cleanup ok`, `K`, `S`, `P cb …` and judge -/
-def judgeCleanup (a : TAcc) (lv : Live) : TAcc :=
-  let a := expectLine a "P cleanup ok" "cleanup() did not return normally"
+/-- `A 0:3,2:1` / `Q …` lines: (thread, sequence number) pairs, `-` for none -/
+def parsePairs (line : String) (key : String) : Option (List (Nat × Nat)) :=
+  match words line with
+  | [k, v] =>
+    if k != key then none else
+    if v == "-" then some [] else
+    (v.splitOn ",").mapM fun t =>
+      match t.splitOn ":" with
+      | [x, y] => match x.toNat?, y.toNat? with | some p, some q => some (p, q) | _, _ => none
+      | _ => none
+  | _ => none
+
+/-- block lengths, run-length encoded in compact lifecycles: `4096*4096,17` -/
+def parseLens (ks : String) : Option (List (Nat × Nat)) :=
+  if ks == "-" then some [] else
+  (ks.splitOn ",").mapM fun t =>
+    match t.splitOn "*" with
+    | [x] => x.toNat?.map (·, 1)
+    | [x, y] => match x.toNat?, y.toNat? with | some n, some c => if c ≥ 1 then some (n, c) else none | _, _ => none
+    | _ => none
+
+def seqOfRec (d : List UInt8) : Nat := (d.getD 1 0).toNat * 256 + (d.getD 2 0).toNat
+
+/-- appends that reported `std::bad_alloc` to their caller (fault schedule `allocfail`): such an append has written a
+prefix of its data (whole buffers) and the rest never entered the pipe.  The cut is not observable at the API, so it is
+searched: the first assignment of cuts for which the abstract spec accepts the stream. -/
+def findCuts (prog : Nat → List (List UInt8)) (stream : List UInt8) : List (Nat × Nat) → Option (Nat → List (List UInt8))
+  | [] => if Spec.accept prog stream then some prog else none
+  | (tid, sq) :: more =>
+    match (prog tid).find? (fun d => !d.isEmpty && seqOfRec d == sq) with
+    | none => none
+    | some d =>
+      let rec tryCut (c : Nat) (fuel : Nat) : Option (Nat → List (List UInt8)) :=
+        match fuel with
+        | 0 => none
+        | fuel + 1 =>
+          let prog' : Nat → List (List UInt8) := fun p =>
+            if p == tid then (prog p).map (fun x => if x == d then d.take c else x) else prog p
+          match findCuts prog' stream more with
+          | some g => some g
+          | none => if c == 0 then none else tryCut (c - 1) fuel
+      tryCut (d.length - 1) d.length
+
+/-- numeric twin of `blockRule` for compact lifecycles (block and append LENGTHS only; the byte comparison was made by the
+harness): every block 1..size, a partial block ends where an append ends, the totals agree -/
+def blockRuleN (size : Nat) (appendLens : List Nat) (blocks : List (Nat × Nat)) : Bool :=
+  let bounds := 0 :: sums 0 appendLens
+  let total := appendLens.foldl (· + ·) 0
+  let rec go (off : Nat) : List (Nat × Nat) → Bool
+    | [] => off == total
+    | (n, c) :: rest =>
+      decide (1 ≤ n) && decide (n ≤ size) &&
+        (n == size || (c == 1 && bounds.contains (off + n)) ||
+          (List.range c).all (fun i => bounds.contains (off + (i + 1) * n))) && go (off + n * c) rest
+  go 0 blocks
+
+def judgeCompact (a : TAcc) (lv : Live) (kl sl cl il al ql : String) (rest : List String) : TAcc :=
+  match words kl, words sl with
+  | ["K", ks], ["S", "compact", tw, mw] =>
+    match parseLens ks, (if tw.startsWith "total=" then (tw.drop 6).toString.toNat? else none), parsePairs al "A", parsePairs ql "Q" with
+    | some blocks, some total, some aborted, some acqs =>
+      let a := { a with tl := rest }
+      let recs := lv.bigs.reverse
+      let want := recs.foldl (fun acc r => acc + r.2.2 + 5) 0
+      if cl != "P cb overlap=0" then { a with err := some s!"op#{a.nops} sink callbacks OVERLAPPED: [{cl}]" } else
+      if !aborted.isEmpty then { a with err := some s!"op#{a.nops} an append reported bad_alloc although no allocation failure was scheduled" } else
+      if mw != "match=1" then
+        { a with err := some s!"op#{a.nops} delivered stream is not the appended records in order (compact comparison, {total} bytes delivered, {want} appended): LOST, duplicated or torn data" } else
+      if total != want then { a with err := some s!"op#{a.nops} LOST: {total} bytes delivered, {want} appended" } else
+      if blocks.any (fun b => b.1 == 0) then { a with err := some s!"M: op#{a.nops} sink called with an EMPTY block" } else
+      if !blockRuleN lv.cfg.size (recs.map (fun r => r.2.2 + 5)) blocks then
+        { a with err := some s!"M: op#{a.nops} block sequence is not a run of the model (blockRule on lengths): a block longer than a buffer, or a partial block that does not end where an append ends" } else
+      if acqs != recs.map (fun r => (r.1, r.2.1)) then
+        { a with err := some s!"M: op#{a.nops} acquisition order recorded at the producer mutex differs from the order of the appends" } else
+      let _ := il
+      let mx := recs.foldl (fun m r => max m (r.2.2 + 5)) 0
+      let tags := ["compact"] ++ (if lv.cfg.size ≥ 65536 then ["size>=2^16"] else []) ++ (if lv.cfg.size ≥ 16777216 then ["size>=2^24"] else [])
+        ++ (if lv.cfg.size ≥ 2147483648 then ["size>=2^31"] else [])
+        ++ (if mx ≥ 16777216 then ["append>=2^24"] else []) ++ (if mx ≥ 2147483648 then ["append>=2^31"] else [])
+        ++ (if mx ≥ 4294967296 then ["append>=2^32"] else [])
+        ++ (if mx > lv.cfg.size then ["append>buffer"] else [])
+      { a with tags := a.tags ++ tags, live := none, lifecycles := a.lifecycles + 1, records := a.records + recs.length,
+               blocks := a.blocks + blocks.foldl (fun n b => n + b.2) 0 }
+    | _, _, _, _ => { a with err := some s!"op#{a.nops} unparsable K/S/A/Q lines of a compact lifecycle" }
+  | _, _ => { a with err := some s!"op#{a.nops} expected K and S compact lines, got [{kl.take 60}] [{sl.take 60}]" }
+
+/-- the end of a live pipe's lifecycle (`cleanup` or the destructor): consume `P cleanup ok`, `K`, `S`, `P cb …`, `I`, `N`, `A`, `Q` and judge -/
+def judgeCleanup (a : TAcc) (lv : Live) (first : String) (what : String) : TAcc :=
+  let a := expectLine a first what
   if a.err.isSome then a else
   match a.tl with
-  | kl :: sl :: cl :: il :: nl :: rest =>
-    match words kl, words sl, words nl with
-    | ["K", ks], ["S", hx], ["N", ns] =>
+  | kl :: sl :: cl :: il :: nl :: al :: ql :: rest =>
+    if lv.compact then judgeCompact a lv kl sl cl il al ql rest else
+    match words kl, words sl, words nl, parsePairs al "A", parsePairs ql "Q" with
+    | ["K", ks], ["S", hx], ["N", ns], some aborted, some acqs =>
       -- nested appends made by the sink callback (all completed before cleanup began): block ordinals, in order
       let nested? : Option (List Nat) := if ns == "-" then some [] else (ns.splitOn ",").mapM (·.toNat?)
       match nested? with
@@ -118,13 +209,16 @@ def judgeCleanup (a : TAcc) (lv : Live) : TAcc :=
       | some nested =>
       if nested.length > 0 && lv.echo.isNone then { a with err := some s!"op#{a.nops} N line reports nested appends but no echo script is active" } else
       let kv (w : String) (key : String) : Option Nat := if w.startsWith key then (w.drop key.length).toString.toNat? else none
-      let (bp?, peak?) := match words il with
-        | ["I", w1, w2] => (kv w1 "bp=", kv w2 "peak=")
-        | _ => (none, none)
-      match bp?, peak? with
-      | none, _ | _, none => { a with err := some s!"op#{a.nops} expected the I line, got [{il.take 60}]" }
-      | some bp, some peak =>
+      let (bp?, peak?, thr?) := match words il with
+        | ["I", w1, w2, w3] => (kv w1 "bp=", kv w2 "peak=", kv w3 "threads=")
+        | _ => (none, none, none)
+      match bp?, peak?, thr? with
+      | none, _, _ | _, none, _ | _, _, none => { a with err := some s!"op#{a.nops} expected the I line, got [{il.take 60}]" }
+      | some bp, some peak, some thr =>
       let realBp := bp != 0
+      -- M-class (OS-level effect): initialize() creates exactly the ONE back-end thread of the model
+      if thr != 1 then
+        { a with err := some s!"M: op#{a.nops} M-class: initialize() created {thr} threads, the model has one back-end thread (C10_callbacks_serial rests on it)" } else
       -- M-class: buffers alive at once.  buff_num_ <= max (C10_buffers_bounded); the back end decrements
       -- buff_num_ before it deletes the buffer, so ONE more allocation may be alive transiently.
       if peak > lv.cfg.maxN + 1 || peak < lv.cfg.minN then
@@ -135,12 +229,18 @@ def judgeCleanup (a : TAcc) (lv : Live) : TAcc :=
         let stream := arr.toList
         let a := { a with tl := rest }
         if cl != "P cb overlap=0" then { a with err := some s!"op#{a.nops} sink callbacks OVERLAPPED: [{cl}]" } else
+        if lv.nocb then
+          -- no callback installed: nothing can have been handed to anyone; the lifecycle must still end (it did)
+          if !stream.isEmpty || !lens.isEmpty then { a with err := some "internal: blocks recorded although the harness removed its callback" } else
+          { a with tags := a.tags ++ ["no-callback"], live := none, lifecycles := a.lifecycles + 1 } else
         let nestedRecs : List (List UInt8) := (List.range nested.length).map fun j => recordBytes 8 j (lv.echo.getD 0)
-        let prog : Nat → List (List UInt8) := fun p => if p == 8 then nestedRecs else lv.prog.getD p []
-        -- (1) the property, decided by the abstract spec
-        if !Spec.accept prog stream then
-          { a with err := some s!"op#{a.nops} delivered stream is not an interleaving of the appends: {diagnose prog stream}" }
-        else
+        let prog0 : Nat → List (List UInt8) := fun p => if p == 8 then nestedRecs else lv.prog.getD p []
+        -- (1) the property, decided by the abstract spec (an append that reported bad_alloc contributes the prefix it wrote)
+        match findCuts prog0 stream aborted with
+        | none =>
+          let extra := if aborted.isEmpty then "" else s!" (with the {aborted.length} append(s) that reported bad_alloc cut at any point)"
+          { a with err := some s!"op#{a.nops} delivered stream is not an interleaving of the appends{extra}: {diagnose prog0 stream}" }
+        | some prog =>
         match Spec.parse (stream.length + 1) prog stream with
         | none => { a with err := some "internal: accept/parse disagree" }
         | some (order, _) =>
@@ -155,6 +255,13 @@ def judgeCleanup (a : TAcc) (lv : Live) : TAcc :=
             let bad := (List.zip lens ends).findIdx? (fun (n, e) => n == 0 || n > lv.cfg.size || (n != lv.cfg.size && !bnds.contains e))
             let k := bad.getD 0
             { a with err := some s!"M: op#{a.nops} block sequence is not a run of the model (blockRule, theorem C10_observable_accepted): block #{k} has {lens.getD k 0} bytes (buffer size {lv.cfg.size}) and ends at stream offset {ends.getD k 0}, which is not the end of an append — a partial block must end where an append ends" } else
+          -- (2b) step-level: the order in which the appends obtained the producer mutex (global sequence numbers stamped at the
+          -- interposed pthread_mutex_lock) is the order of the appends in the stream — the ghost `acq` of C10_stream, observed
+          let orderIds := order.map (fun pd => (pd.1, seqOfRec pd.2))
+          let acqsSeen := acqs.filter (fun x => orderIds.contains x)
+          if aborted.isEmpty && acqsSeen != orderIds then
+            let k := ((acqsSeen.zip orderIds).findIdx? (fun (x, y) => x != y)).getD (min acqsSeen.length orderIds.length)
+            { a with err := some s!"M: op#{a.nops} acquisition order recorded at the producer mutex differs from the order of the appends in the stream at position {k} ({acqsSeen.length} stamped, {orderIds.length} in the stream) (C10_stream: the stream is the appends in acquisition order)" } else
           let maxE := lv.nrec + nested.length + 1
           let sch := schedule lv.cfg prog order (prefixSums lens) maxE
           match sch.err with
@@ -181,16 +288,25 @@ def judgeCleanup (a : TAcc) (lv : Live) : TAcc :=
                 ++ (if nested.length > 0 then ["nested-append"] else if lv.echo.isSome then ["echo-idle"] else [])
                 ++ (if lv.cfg.minN == lv.cfg.maxN then ["min=max"] else ["min<max"])
                 ++ (if lv.cfg.size == 1 then ["size=1"] else [])
+                ++ (if lv.cfg.size ≥ 65535 then ["size~2^16"] else [])
+                ++ (if order.any (fun pd => pd.2.length ≥ 65536) then ["append>=2^16"] else [])
+                ++ (if lv.cfg.interval ≥ 2147483648 then ["interval>=2^31"] else [])
                 ++ (if stream.isEmpty then ["empty-stream"] else [])
+                ++ (if !aborted.isEmpty then ["append-bad_alloc"] else [])
+                ++ (if first == "P destroy ok" then ["destructor"] else [])
                 ++ (if lens.getLast? != some lv.cfg.size && !lens.isEmpty then ["cleanup-flushed-partial"] else [])
               { a with tags := a.tags ++ tags, live := none, lifecycles := a.lifecycles + 1,
                        records := a.records + order.length, blocks := a.blocks + lens.length }
       | _, _ => { a with err := some s!"op#{a.nops} unparsable K/S lines" }
-    | _, _, _ => { a with err := some s!"op#{a.nops} expected K, S … N lines after cleanup, got [{kl.take 60}]" }
+    | _, _, _, _, _ => { a with err := some s!"op#{a.nops} expected K, S … N, A, Q lines after cleanup, got [{kl.take 60}]" }
   | _ => { a with err := some s!"op#{a.nops} implementation output ends inside cleanup" }
 
 def inRange (w : String) (hi : Nat) : Option Nat :=
+  if w.length > 18 then none else
   match w.toNat? with | some n => if n ≤ hi then some n else none | none => none
+
+def maxSize : Nat := 8589934592
+def maxInterval : Nat := 4294967297
 
 def stepOp (a : TAcc) (line : String) : TAcc :=
   if a.err.isSome then a else
@@ -198,11 +314,34 @@ def stepOp (a : TAcc) (line : String) : TAcc :=
   let bad := expectLine a "bad-op" "malformed op"
   match words line with
   | ["init", w1, w2, w3, w4] =>
-    match inRange w1 65536, inRange w2 64, inRange w3 64, inRange w4 1000, a.live with
+    match inRange w1 maxSize, inRange w2 64, inRange w3 64, inRange w4 maxInterval, a.live with
     | some sz, some mn, some mx, some iv, none =>
       let cfg : Cfg := { size := sz, minN := mn, maxN := mx, interval := iv }
       if cfg.ok then expectLine { a with live := some { cfg := cfg } } "P init 1" "initialize"
       else expectLine { a with tags := a.tags ++ ["init-rejected"] } "P init 0" "initialize (bad config must be refused)"
+    | _, _, _, _, _ => bad
+  | "initfail" :: kind :: more =>
+    -- fault schedule for initialize(): thread creation fails / the k-th buffer allocation fails: the exception reaches the
+    -- caller, no lifecycle starts (Api.initializeF)
+    let args? : Option (Nat × List String) := match kind, more with
+      | "thread", [w1, w2, w3, w4] => some (0, [w1, w2, w3, w4])
+      | "alloc", [k, w1, w2, w3, w4] => (inRange k 64).map (·, [w1, w2, w3, w4])
+      | _, _ => none
+    match args?, a.live with
+    | some (k, [w1, w2, w3, w4]), none =>
+      match inRange w1 4096, inRange w2 64, inRange w3 64, inRange w4 1000 with
+      | some sz, some mn, some mx, some iv =>
+        if kind == "alloc" && (k < 1 || k > mn) then bad else
+        let cfg : Cfg := { size := sz, minN := mn, maxN := mx, interval := iv }
+        if cfg.ok then expectLine { a with tags := a.tags ++ ["init-threw-" ++ kind] } "P init threw" "initialize with a failing thread creation / allocation (the exception must reach the caller)"
+        else expectLine { a with tags := a.tags ++ ["init-rejected"] } "P init 0" "initialize (bad config must be refused)"
+      | _, _, _, _ => bad
+    | _, _ => bad
+  | ["reinit", w1, w2, w3, w4] =>
+    -- initialize() on a pipe that is already running (Api.initialize, repaired): refused, the running lifecycle unaffected
+    match inRange w1 4096, inRange w2 64, inRange w3 64, inRange w4 1000, a.live with
+    | some _, some _, some _, some _, some _ =>
+      expectLine { a with tags := a.tags ++ ["init-twice"] } "P reinit 0" "initialize() on a running pipe must be refused (C10_api_init_twice_refused)"
     | _, _, _, _, _ => bad
   | ["perturb", w1, w2, w3] =>
     match inRange w1 1000000000, inRange w2 5000, inRange w3 5000 with
@@ -217,15 +356,32 @@ def stepOp (a : TAcc) (line : String) : TAcc :=
       else if lv.echo.isSome then bad
       else expectLine { a with live := some { lv with echo := if w1 == "never" then none else some len } } "P echo" "echo"
     | _, _, _ => bad
+  | ["unsetcb"] =>
+    match a.live with
+    | some lv => if lv.anyApp then bad else expectLine { a with live := some { lv with nocb := true } } "P unsetcb" "unsetcb"
+    | none => bad
+  | ["setcb"] =>
+    match a.live with
+    | some lv => if lv.anyApp then bad else expectLine { a with live := some { lv with nocb := false } } "P setcb" "setcb"
+    | none => bad
+  | ["compact"] =>
+    match a.live with
+    | some lv => if lv.anyApp || lv.echo.isSome then bad else expectLine { a with live := some { lv with compact := true } } "P compact" "compact"
+    | none => bad
+  | ["allocfail", w1] =>
+    match a.live, (w1.splitOn ",").mapM (fun t => inRange t 100000) with
+    | some _, some ks => if ks.length > 8 || ks.any (· < 1) then bad else expectLine a "P allocfail" "allocfail"
+    | _, _ => bad
   | ["prod", w1, w2, w3] =>
     match inRange w1 7, inRange w2 5000, (w3.splitOn ",").mapM parseTok, a.live with
     | some tid, some _, some toks, some lv =>
-      if (lv.declared.getD tid none).isSome || toks.length > 2000 then bad else
+      if lv.compact || (lv.declared.getD tid none).isSome || toks.length > 2000 then bad else
       expectLine { a with live := some { lv with declared := lv.declared.setIfInBounds tid (some toks) } } "P prod" "prod"
     | _, _, _, _ => bad
   | ["run"] =>
     match a.live with
     | some lv =>
+      if lv.compact then bad else
       let lv' := (List.range 8).foldl (fun (lv : Live) tid =>
         match lv.declared.getD tid none with
         | none => lv
@@ -236,16 +392,24 @@ def stepOp (a : TAcc) (line : String) : TAcc :=
             | .app len _ => (acc.1 + 1, recordBytes tid acc.1 len :: acc.2)) (lv.nextSeq.getD tid 0, [])
           { lv with nextSeq := lv.nextSeq.setIfInBounds tid seq,
                     prog := lv.prog.setIfInBounds tid (lv.prog.getD tid [] ++ recs.reverse),
-                    declared := lv.declared.setIfInBounds tid none, nrec := lv.nrec + toks.length }) lv
+                    declared := lv.declared.setIfInBounds tid none, nrec := lv.nrec + toks.length, anyApp := true }) lv
       expectLine { a with live := some lv' } "P run" "run"
     | none => bad
+  | ["big", w1, w2] =>
+    match inRange w1 7, inRange w2 maxSize, a.live with
+    | some tid, some len, some lv =>
+      if !lv.compact then bad else
+      let seq := lv.nextSeq.getD tid 0
+      expectLine { a with live := some { lv with nextSeq := lv.nextSeq.setIfInBounds tid (seq + 1), bigs := (tid, seq, len) :: lv.bigs,
+                                                  nrec := lv.nrec + 1, anyApp := true } } "P big" "big"
+    | _, _, _ => bad
   | ["fillhold", w1, w2] =>
     -- one producer appends one record while the sink is held inside a callback; M-class: live buffers at that quiescent point
     match inRange w1 7, inRange w2 20000, a.live with
     | some tid, some len, some lv =>
-      if (lv.declared.getD tid none).isSome then bad else
+      if lv.compact || (lv.declared.getD tid none).isSome then bad else
       let seq := lv.nextSeq.getD tid 0
-      let lv' := { lv with nextSeq := lv.nextSeq.setIfInBounds tid (seq + 1),
+      let lv' := { lv with nextSeq := lv.nextSeq.setIfInBounds tid (seq + 1), anyApp := true,
                            prog := lv.prog.setIfInBounds tid (lv.prog.getD tid [] ++ [recordBytes tid seq len]), nrec := lv.nrec + 1 }
       match a.tl with
       | ml :: rest =>
@@ -277,6 +441,20 @@ def stepOp (a : TAcc) (line : String) : TAcc :=
         | _ => expectLine a "M late outcome=<word>" "late"
       | [] => expectLine a "M late outcome=<word>" "late"
     | _, _, _, _ => bad
+  | ["exp", kind, w1, w2, w3] =>
+    -- documented experiments outside the statement (lockless appends without the lock, a throwing sink, a sink that calls
+    -- cleanup() on its own pipe): the outcome is a tag, never judged
+    match inRange w1 4096, inRange w2 64, inRange w3 200, a.live with
+    | some sz, some mx, some _, none =>
+      if sz < 1 || mx < 1 || !(kind == "lockless" || kind == "cbthrow" || kind == "cbcleanup") then bad else
+      match a.tl with
+      | ml :: rest =>
+        match words ml with
+        | ["M", "exp", k2, w] => if k2 != kind then expectLine a s!"M exp {kind} outcome=<word>" "exp" else
+            { a with tl := rest, tags := a.tags ++ [s!"exp-{kind}:" ++ (w.drop 8).toString] }
+        | _ => expectLine a s!"M exp {kind} outcome=<word>" "exp"
+      | [] => expectLine a s!"M exp {kind} outcome=<word>" "exp"
+    | _, _, _, _ => bad
   | ["sleep", w1] =>
     match inRange w1 500 with
     | some _ => expectLine a "P sleep" "sleep"
@@ -284,7 +462,12 @@ def stepOp (a : TAcc) (line : String) : TAcc :=
   | ["cleanup"] =>
     match a.live with
     | none => expectLine a "P cleanup noop" "cleanup of a pipe that is not initialised"
-    | some lv => judgeCleanup a lv
+    | some lv => judgeCleanup a lv "P cleanup ok" "cleanup() did not return normally"
+  | ["destroy"] =>
+    -- the destructor: `~Impl` calls cleanup() (Api.destroy) — the same judgement as an explicit cleanup
+    match a.live with
+    | none => expectLine a "P destroy noop" "destructor of a pipe that is not initialised"
+    | some lv => judgeCleanup a lv "P destroy ok" "the destructor of a running pipe did not return normally"
   | _ => bad
 
 structure DS where
